@@ -130,9 +130,31 @@ def _construct_faces(run, P):
     loop = next((s for s in iter_stmts(fn.body) if isinstance(s, ast.For)), None)
     skip = None
     unknown = []
+    rowvar, filt_thr = None, None
     if loop is not None:
         ivar = norm(loop.target)
-        for s in loop.body:
+        # `for r, i in enumerate(NODES)` / `for i in NODES` where NODES = np.flatnonzero(n_edges[...] >= K) (or np.where(...)[0]): the filter IS the skip test,
+        # and the enumerate index numbers the constructed faces densely by construction
+        it_ = loop.iter
+        tgt_ = loop.target
+        if isinstance(it_, ast.Call) and (dotted(it_.func) or [""])[-1] == "enumerate" and it_.args and isinstance(tgt_, ast.Tuple) and len(tgt_.elts) == 2 and all(isinstance(e_, ast.Name) for e_ in tgt_.elts):
+            rowvar, ivar = tgt_.elts[0].id, tgt_.elts[1].id
+            it_ = it_.args[0]
+        src_ = RZ.resolve(it_) if isinstance(it_, ast.Name) else it_
+        if isinstance(src_, ast.Name):
+            d_ = RZ.defs.defs.get(src_.id, [])
+            src_ = d_[0][0] if len(d_) == 1 else src_
+        if isinstance(src_, ast.Subscript) and isinstance(src_.value, ast.Call) and (dotted(src_.value.func) or [""])[-1] in ("where", "nonzero"):
+            src_ = ast.Call(func=ast.Name(id="flatnonzero", ctx=ast.Load()), args=src_.value.args, keywords=[])
+        if isinstance(src_, ast.Call) and (dotted(src_.func) or [""])[-1] == "flatnonzero" and src_.args and isinstance(src_.args[0], ast.Compare) and len(src_.args[0].ops) == 1:
+            cmp_ = src_.args[0]
+            lhs_ = cmp_.left.value if isinstance(cmp_.left, ast.Subscript) and isinstance(cmp_.left.slice, ast.Slice) and cmp_.left.slice.lower is None else cmp_.left
+            k_ = cmp_.comparators[0]
+            if norm(lhs_) == "n_edges" and isinstance(k_, ast.Constant):
+                filt_thr = k_.value if isinstance(cmp_.ops[0], ast.GtE) else k_.value + 1 if isinstance(cmp_.ops[0], ast.Gt) else None
+        if filt_thr is not None:
+            skip = (filt_thr, ast.If(test=ast.Constant(value=False), body=[], orelse=[], lineno=loop.lineno, col_offset=0))
+        for s in ([] if filt_thr is not None else loop.body):
             if isinstance(s, ast.If) and isinstance(s.test, ast.Compare) and len(s.test.ops) == 1 and RZ.norm(s.test.left) == f"n_edges[{ivar}]" and any(isinstance(x, ast.Continue) for x in s.body) and isinstance(s.test.comparators[0], ast.Constant):
                 op, k = s.test.ops[0], s.test.comparators[0]
                 thr = k.value if isinstance(op, ast.Lt) else k.value + 1 if isinstance(op, ast.LtE) else None
@@ -150,7 +172,9 @@ def _construct_faces(run, P):
         for x in stores:
             sl = x.targets[0].slice
             pl = S.poly(sl)
-            if isinstance(sl, ast.Name) and sl.id != ivar:
+            if isinstance(sl, ast.Name) and rowvar is not None and sl.id == rowvar:
+                pass     # enumerate index over the filtered nodes: dense by construction
+            elif isinstance(sl, ast.Name) and sl.id != ivar:
                 # idiom B: a row counter that starts at 0 and advances once for every node that is NOT skipped
                 r = sl.id
                 init = [st_ for st_ in iter_stmts(fn.body) if isinstance(st_, ast.Assign) and norm(st_.targets[0]) == r and st_.lineno < loop.lineno]
@@ -188,7 +212,7 @@ def _construct_faces(run, P):
         run.holds("IDX/dual-rows", c, where(f, alloc), "one row per primal node with >= 3 faces, INT_FILL_VALUE/INT_DTYPE, rows numbered densely over the nodes that are not skipped")
     # valid prefix of the node's faces
     c = f"{f.key}:valid-prefix"
-    ivar = norm(loop.target) if loop is not None else "i"
+    ivar = (ivar if loop is not None else "i")
     reads = [n for n in ast.walk(fn) if isinstance(n, ast.Subscript) and isinstance(n.ctx, ast.Load) and "node_face_connectivity" in norm(n.value) and not norm(n).startswith("node_face_connectivity[0]")
              and not (isinstance(n.slice, ast.Name) and n.slice.id == ivar and any(isinstance(p_, ast.Subscript) and p_.value is n for p_ in ast.walk(fn)))]
     pref = [n for n in reads if isinstance(n.slice, ast.Slice)]
